@@ -31,6 +31,7 @@ inductive Err
   | whiskersCoverage  -- Boxplot: whiskers_coverage <= box_coverage
   | oneCategory       -- Boxplot: `by` has 1 category only
   | empty             -- an operation that needs one value at least was given none
+  | ndim              -- pareto_front: data is not 2-dimensional
   deriving DecidableEq, Repr
 
 /-- `floor` of a non-negative number, as an index -/
@@ -160,6 +161,10 @@ def isDominatedAt (o : α) (d : List (List (Option α))) (i : Nat) : Bool :=
 /-- `pareto_front(data, orientation)`: 1 = dominated -/
 def paretoFront (o : α) (d : List (List (Option α))) : List Nat :=
   (List.range d.length).map fun i => if isDominatedAt o d i then 1 else 0
+
+/-- the wrapper's shape guard: `data.ndim != 2` is rejected before the kernel is called -/
+def paretoFrontNd (ndim : Nat) (o : α) (d : List (List (Option α))) : Except Err (List Nat) :=
+  if ndim ≠ 2 then .error .ndim else .ok (paretoFront o d)
 
 def negRows (d : List (List (Option α))) : List (List (Option α)) :=
   d.map fun r => r.map fun x => x.map fun v => -v
